@@ -55,6 +55,7 @@ struct State {
     replay: Option<Vec<u16>>,
     replay_pos: usize,
     aborted: Option<Outcome>,
+    diverged: Option<String>,
     switches: u64,
     // lock-order observation
     held: Vec<Vec<(usize, &'static str)>>,
@@ -91,6 +92,7 @@ impl Sched {
                 replay,
                 replay_pos: 0,
                 aborted: None,
+                diverged: None,
                 switches: 0,
                 held: Vec::new(),
                 lock_edges: BTreeMap::new(),
@@ -229,13 +231,14 @@ impl Sched {
                     *c as usize
                 }
                 other => {
-                    let msg = format!(
+                    // The recorded schedule does not fit this tree any more (the code changed
+                    // since the recording): note it and continue under the seeded scheduler.
+                    st.diverged = Some(format!(
                         "decision {}: recorded {:?}, eligible {:?}",
                         st.replay_pos, other, elig
-                    );
-                    st.aborted = Some(Outcome::ReplayDiverged(msg));
-                    st.current = None;
-                    return;
+                    ));
+                    st.replay = None;
+                    elig[st.rng.usize_below(elig.len())]
                 }
             }
         } else {
@@ -423,6 +426,9 @@ impl Sched {
         }
     }
 
+    pub fn diverged(&self) -> Option<String> {
+        self.st.lock().unwrap().diverged.clone()
+    }
     pub fn decisions(&self) -> Vec<u16> {
         self.st.lock().unwrap().decisions.clone()
     }
